@@ -25,7 +25,7 @@ parser). Field values only matter to the condition, which reads them through `ρ
 structure Point where
   time : Int
   tags : List Tag
-deriving Repr
+deriving Repr, DecidableEq
 
 /-- what the routing needs of the catalogue for one measurement. -/
 structure Meta where
@@ -111,28 +111,32 @@ structure Routed where
   shard : Shard
   /-- the string that was range-compared / hashed -/
   key : String
-deriving Repr
+deriving Repr, DecidableEq
+
+/-- the routing decision of `updateShardGroupAndShardKey` inside a given shard group: shard key of
+the row, then `DestShard` (range) or `ShardFor(HashID(key), shardIdxes)` (hash). -/
+def routeIn (hash : String → Nat) (M : Meta) (g : Group) (p : Point) : Except WErr Routed :=
+  match shardKeyOf M.name M.key p.tags with
+  | .error e => .error e
+  | .ok sk =>
+    if M.range then
+      match g.DestShard sk with
+      | some s => .ok ⟨g, s, sk⟩
+      | none => .error .map2shard
+    else
+      match hashInput M sk with
+      | none => .error .panic
+      | some hk =>
+        match g.ShardFor (hash hk) g.shardIdxes with
+        | none => .error .panic
+        | some none => .error .map2shard
+        | some (some s) => .ok ⟨g, s, hk⟩
 
 /-- the routing decision of `updateShardGroupAndShardKey` for one row. -/
 def writePoint (hash : String → Nat) (M : Meta) (p : Point) : Except WErr Routed :=
   match groupFor M.groups p.time with
   | none => .error .noGroup
-  | some g =>
-    match shardKeyOf M.name M.key p.tags with
-    | .error e => .error e
-    | .ok sk =>
-      if M.range then
-        match g.DestShard sk with
-        | some s => .ok ⟨g, s, sk⟩
-        | none => .error .map2shard
-      else
-        match hashInput M sk with
-        | none => .error .panic
-        | some hk =>
-          match g.ShardFor (hash hk) g.shardIdxes with
-          | none => .error .panic
-          | some none => .error .map2shard
-          | some (some s) => .ok ⟨g, s, hk⟩
+  | some g => routeIn hash M g p
 
 /-! ### shard-group spans (`Data.newShardGroup`) -/
 
